@@ -159,7 +159,8 @@ Run(st0, par, node, path, tgt) ==
                IN IF o = "err" THEN Res(NewErr(st3, f, n), "err", tgt, f, st3.eid + 1)
                   ELSE IF o = "alien" THEN Res(NewAlien(st3, f, n), "err", tgt, f, st3.eid + 1)
                   ELSE Res(st3, "ok", IF node.k = "same" THEN tgt ELSE <<n>>, 0, 0)   \* copy: a distinct object (equal to tgt)
-          [] node.k \in {"fail", "smiss"} ->      \* a leaf that always raises (smiss: S.<missing name>)
+          [] node.k \in {"fail", "smiss", "typ"} ->      \* a leaf that always raises (smiss: S.<missing name>; typ: a plain
+                                                       \* type used as a Match-mode pattern that no target of the universe satisfies)
                Res(NewErr(st2, f, 0), "err", tgt, f, st2.eid + 1)
           [] node.k = "iter" ->
                \* Iter(sub): returns a generator at once; sub is evaluated per item, as a child of THIS
